@@ -372,6 +372,61 @@ def _in_child(fn, *args):
     return val
 
 
+def in_child_timeout(fn, timeout, *args):
+    """
+    Run fn(*args) in a forked child; if no result arrives within `timeout` seconds the child is
+    KILLED (a hang inside C code -- a regular-expression match, a C-level loop -- never returns to
+    the interpreter, so no in-process alarm handler can interrupt it).  -> ("ok", value) |
+    ("timeout", None) | ("died", None)
+    """
+    import pickle  # pylint: disable=import-outside-toplevel
+    import select  # pylint: disable=import-outside-toplevel
+    import signal  # pylint: disable=import-outside-toplevel
+
+    rfd, wfd = os.pipe()
+    pid = os.fork()
+    if pid == 0:
+        code = 0
+        try:
+            os.close(rfd)
+            signal.alarm(0)
+            try:
+                blob = pickle.dumps(("ok", fn(*args)))
+            except BaseException as err:  # pylint: disable=broad-except
+                blob = pickle.dumps(("err", f"{type(err).__name__}: {err}\n{traceback.format_exc()}"))
+            with os.fdopen(wfd, "wb") as fh:
+                fh.write(blob)
+        except BaseException:  # pylint: disable=broad-except
+            code = 1
+        finally:
+            os._exit(code)  # pylint: disable=protected-access
+    os.close(wfd)
+    blob, deadline = b"", time.time() + timeout
+    with os.fdopen(rfd, "rb", buffering=0) as fh:
+        while True:
+            left = deadline - time.time()
+            if left <= 0:
+                os.kill(pid, signal.SIGKILL)
+                os.waitpid(pid, 0)
+                return ("timeout", None)
+            try:
+                ready, _, _ = select.select([fh], [], [], left)
+            except InterruptedError:
+                continue
+            if ready:
+                part = fh.read(65536)
+                if not part:
+                    break
+                blob += part
+    os.waitpid(pid, 0)
+    if not blob:
+        return ("died", None)
+    tag, val = pickle.loads(blob)
+    if tag != "ok":
+        raise Broken(f"child process failed: {val}")
+    return ("ok", val)
+
+
 def check_deterministic(judge, case):
     """
     Harness determinism: the same case judged in two separately forked children of this
